@@ -6,6 +6,7 @@ import (
 	"strings"
 
 	"verif/harness/app"
+	"verif/harness/specvm"
 	"verif/harness/vk"
 )
 
@@ -54,6 +55,63 @@ func runC01(c *vk.Ctx) {
 					continue
 				}
 				c.Violate(sig, msg, key, map[string]interface{}{"case": rc, "size": size, "template": rc.template()})
+			}
+		}
+	}
+	// model layer: exact page text at sizes around each page's natural length
+	nm := c.N(400, 20000)
+	for i := 0; i < nm; i++ {
+		if !c.Mine(i) {
+			continue
+		}
+		key := fmt.Sprintf("model/%d", i)
+		if !c.Want(key) {
+			continue
+		}
+		r := c.RNG(key)
+		p := specProfile(r)
+		p.BigValues = false
+		a := app.Generate(r, p)
+		cfg := genConfig(r, a, "s")
+		if a.Trans["nor"] != nil && r.Chance(1, 3) {
+			cfg.Language = "nor"
+		}
+		hist := a.History(r, r.Range(3, 14))
+		// natural page lengths from the model alone
+		cfg0 := cfg
+		cfg0.OutputSize = 0
+		m := specvm.New(a, cfg0)
+		sizes := map[uint32]bool{}
+		for _, in := range hist {
+			pr := m.Request(in)
+			if pr.ExecErr && !pr.Refused {
+				break
+			}
+			if pr.PageKnown {
+				l := len(pr.PageText) + len(pr.ExitValue)
+				for d := -2; d <= 2; d++ {
+					if l+d >= 1 {
+						sizes[uint32(l+d)] = true
+					}
+				}
+			}
+			if !pr.Cont {
+				break
+			}
+		}
+		c.Begin(key)
+		for size := range sizes {
+			cf := cfg
+			cf.OutputSize = size
+			for _, drv := range []string{"long", "mem"} {
+				d, st := monitorSession(c, a, cf, hist, sessOpts{Driver: drv})
+				c.Eval(vk.Hash64(key, drv, fmt.Sprint(size)), st.TextCompared > 0)
+				c.Count("model_pages_compared_textually", int64(st.TextCompared))
+				c.Count("model_requests", int64(st.Requests))
+				if d != nil && (d.Kind == "page-text" || d.Kind == "flush-error") {
+					c.Violate("model:"+d.Kind+":"+d.Sub, fmt.Sprintf("OutputSize %d step %d (%s): %s", size, d.Step, drv, d.Msg), key,
+						map[string]interface{}{"driver": drv, "config": cf, "app": a.Describe(), "history": printableHist(hist), "transcript": st.Transcript})
+				}
 			}
 		}
 	}
